@@ -9,15 +9,15 @@ E3 = 'E3 CrossHair: symbolic execution (z3) of PEP-316 harness functions calling
 C = {
  'C01': dict(level=TV, engine='E1', design='§2 C01',
    technique='SMT entailment (z3 QF_NRA/LRA) over emitted equations, one-period induction, topology zoo enumerated',
-   text='For every topology of the zoo the equation text emitted by the real Model.main() is translated to z3 reals and the solver shows, for all exogenous values, lagged states and declared parameters, that sum of dF per currency zone plus the FX position is zero (unsat of the negation), by one-period induction (all k>=2) plus the k=1 base case. Bounded by the zoo grammar, unbounded in the numbers and the horizon.',
+   text='For every topology of the zoo, built in its canonical and in alternative admissible declaration orders, the equation text emitted by the real Model.main() is translated to z3 reals and the solver shows, for all exogenous values, lagged states and declared parameters, that sum of dF per currency zone plus the FX position is zero (unsat of the negation), by one-period induction (all k>=2) plus the k=1 base case. Bounded by the zoo grammar, unbounded in the numbers and the horizon.',
    note='Trusted: ast->z3 translator (validated on every run against Python eval on exact rationals), the real EquationParser for splitting the text, z3. Assumes exchange rates > 0. Structure enumerated, numbers symbolic.'),
  'C04': dict(level=TV, engine='E1', design='§2 C04',
    technique='SMT entailment over emitted equations per market (aggregation, clearing, allocation, ledger coefficients by solver-checked finite differences)',
-   text='For every market of every zoo topology: demand aggregation over the harness-computed demander set, supply=demand, allocations sum to supply, each participant variable and booked flow equals the assigned amount (cross rate for foreign suppliers), portfolio demands add to F; each an unsat query over all real valuations.',
+   text='For every market of every zoo topology (canonical and alternative declaration orders): demand aggregation over the harness-computed demander set, supply=demand, allocations sum to supply, each participant variable and booked flow equals the assigned amount (cross rate for foreign suppliers), portfolio demands add to F; each an unsat query over all real valuations.',
    note='Demander/supplier sets come from the public object API and the documented naming rule, not from the generator code. Declaration order canonical (C08 covers order).'),
  'C07': dict(level=TV, engine='E1', design='§2 C07',
    technique='SMT entailment over emitted equations with symbolic positive exchange rates; enumerated refusal outcomes',
-   text='For every multi-currency zoo topology the solver shows for all positive, time-varying exchange rates and all flows: receiver credited amount*XR_src/XR_tgt, sender debited, numeraire-valued sum of FX net transactions zero, numeraire position zero with paired flows; plus the enumerated outcome that the same topologies without ExternalSector raise LogicError.',
+   text='For every multi-currency zoo topology (canonical and alternative declaration orders) the solver shows for all positive, time-varying exchange rates and all flows: receiver credited amount*XR_src/XR_tgt, sender debited, numeraire-valued sum of FX net transactions zero, numeraire position zero with paired flows; plus the enumerated outcome that the same topologies without ExternalSector raise LogicError.',
    note='Numeraire rate kept as emitted (freeing it is unsound). Exchange rates assumed > 0.'),
 }
 C['C08'] = dict(level=TV, engine='E1', design='§2 C08',
@@ -27,7 +27,7 @@ C['C08'] = dict(level=TV, engine='E1', design='§2 C08',
 C['C09'] = dict(level=TV, engine='E1+E2', design='§2 C09',
    technique='SMT one-period inductive equivalence of emitted SIM/SIMEX1/PC systems with the book recursion (parameters symbolic); symbolic execution of the hand-coded iterative SIM',
    text='For SIM, SIMEX1 and PC built by the bundled builders, the emitted equations together with the book recursion (written independently) entail equality of Y, T, YD, C, V, B, H for all admissible parameters, G, r and lagged stocks (goal-split unsat queries); the real ModelSIMiterative.RunStep is executed symbolically over all paths for G in [0,100], H in [-100,100] on a parameter grid with the closed-form error bound as post-condition.',
-   note='Admissibility assumptions listed in evidence; parameter transport (%0.4f) checked concretely; numerical series agreement is C02 + this.')
+   note='Admissibility assumptions listed in evidence; parameter transport (%0.4f) and initial-stock transport (stated stocks incl. zeros are the k=0 state) checked concretely; numerical series agreement is C02 + this.')
 C['C18'] = dict(level=TV, engine='E1', design='§2 C18',
    technique='SMT equivalence of emitted systems under a harness-computed renaming / country-prefix map; isolation read off the emitted text',
    text='Single-zone topologies are built under four injective renamings of country/sector/market codes and the renamed system must be the renamed image of the default one (same variable sets; equations equivalent over all reals). Sets of 2-3 economies with distinct currencies (zoo economies, federations, and the bundled SIM/SIMEX1/PC/REG builders), with and without an unused ExternalSector, are built jointly and alone: the joint system restricted to each economy must equal the prefixed stand-alone system and mention no variable of another economy.',
@@ -70,15 +70,15 @@ C['C15'] = dict(level=MC, engine='E2', design='§2 C15',
    note='TimeSeriesHolder.GenerateCSVtext stubbed to "" in E2 runs (log rendering). Default search horizon 200 is outside the bound.')
 C['C17'] = dict(level=MC, engine='E2', design='§2 C17',
    technique='symbolic execution (symx) of the target solve after each enumerated history and history-free in the same path; z3 equality of the result terms under the path condition',
-   text='All sequences of up to 3 distinct operations from {build+solve another model, solve another solver, register logs, clean logs, trace a step, re-solve, re-parse after another block} are executed before the target solve, whose exogenous and start values are symbolic; on every path the history-free solve is executed too and z3 shows every series value identical, the reported variable set exactly the block`s; FinalEquations of three zoo topologies are textually equal at six object-ID offsets.',
+   text='All sequences of up to 3 distinct operations from {build+solve another model, solve another solver that registers a same-named function, register logs, clean logs, trace a step, re-solve, re-parse after another block} are executed before the target solve (three targets: plain, with a user function, with steady-state initialisation through the public SolveEquation), whose exogenous and start values are symbolic; on every path the history-free solve is executed too and z3 shows every series value identical, the reported variable set exactly the block`s; FinalEquations of three zoo topologies are textually equal at six object-ID offsets.',
    note='Histories bounded to length 3 over the listed operations; values symbolic. Log files go to a scratch directory that is removed.')
 C['C11'] = dict(level=MC, engine='E2', design='§2 C11',
    technique='symbolic execution (symx, z3 reals) of the unmodified solver on expansive/oscillating/erroring blocks with the step trace on; contraction => success with the default cap by exhaustive path exploration; invalid declarations enumerated',
-   text='Expansive, oscillating, quadratic, coupled, persistently and transiently erroring blocks are solved for two periods with symbolic start values/exogenous inputs and iteration caps 0-3(6): every path either returns with all series of length horizon+1 or raises ConvergenceError/ValueError after at most cap+1 traced sweeps with every already-solved period intact and all solved series of equal length. One-variable contractions x=A*x+B (|A|<=0.8) with symbolic B and start value are explored exhaustively under the default cap 400: no path fails. Every reserved name (keywords, builtins, math names, k, self, None) as variable or token and every ill-formed declaration listed in the property is rejected before numbers are produced (enumerated outcome checks).',
+   text='Expansive, oscillating, quadratic, coupled, persistently (in every position of the equation list, also together with a non-convergent rest) and transiently erroring blocks are solved for two periods with symbolic start values/exogenous inputs and iteration caps 0-3(6): every path either returns with all series of length horizon+1 or raises ConvergenceError/ValueError after at most cap+1 traced sweeps with every already-solved period intact and all solved series of equal length. One-variable contractions x=A*x+B (|A|<=0.8) with symbolic B and start value are explored exhaustively under the default cap 400: no path fails. Every reserved name (keywords, builtins, math names, k, self, None) as variable or token and every ill-formed declaration listed in the property is rejected before numbers are produced (enumerated outcome checks).',
    note='Contraction=>success is reached for ONE simultaneous variable only (the property says up to 12): stated as outside the claim. Sweep counts come from the public step trace. The invalid-declaration clause has no numeric input and is enumerated, not solver-decided.')
 C['C20'] = dict(level=MC, engine='E2+E1', design='§2 C20',
    technique='the real code generator writes a module per block; the imported module`s RunOneStep is executed symbolically (symx, z3 reals) with per-path SMT post-conditions; z3 normal-form equivalence of the generated Iterator body with the parser equations',
-   text='For six block shapes (with/without user time variable, lags, initial conditions, constants, one or two exogenous lists, time used in an equation) IterativeMachineGenerator.main() writes a module that is imported and run for two periods with previous-period values and exogenous paths symbolic; every path either raises the module`s non-convergence error or z3 shows every block equation holds within gain*tolerance with lags from its own previous period and exogenous values from the supplied paths; the Iterator body equals the parser equations; the table header lists the time axis first and each non-lagged variable once.',
+   text='For seven block shapes (with/without user time variable, lags, initial conditions, constants, one or two exogenous lists, time used in an equation, static block) and three generator histories (main once; lists inspected first; regenerated after the horizon was raised) IterativeMachineGenerator.main() writes a module that is imported and run for two periods with previous-period values and exogenous paths symbolic; every path either raises the module`s non-convergence error or z3 shows every block equation holds within gain*tolerance with lags from its own previous period and exogenous values from the supplied paths; the Iterator body equals the parser equations; the table header lists the time axis first and each non-lagged variable once.',
    note='Modules are generated into a scratch directory and removed. Block grammar bounded (<= 2 simultaneous variables).')
 C['C03'] = dict(level=TV, engine='E1+E3', design='§2 C03',
    technique='SMT two-sided entailment between the reduced and unreduced systems produced by the real parser/reducer over an enumerated block grammar; CrossHair symbolic execution of SetInitialConditions for k=0',
